@@ -47,7 +47,8 @@ SHAPE = [(0, 0), (4, 1), (1, 5)]          # three keypoints, non-degenerate boun
 def make_inst(d):
     """d = {uid, x, y, score, animal} with x, y Fractions/ints (dyadic)."""
     x, y = float(Fraction(d["x"])), float(Fraction(d["y"]))
-    return Inst([[x + dx, y + dy] for dx, dy in SHAPE], float(Fraction(d["score"])), d["uid"], d.get("animal"))
+    k = d.get("size", 1)
+    return Inst([[x + k * dx, y + k * dy] for dx, dy in SHAPE], float(Fraction(d["score"])), d["uid"], d.get("animal"))
 
 
 # ---------------------------------------------------------------------------
@@ -125,13 +126,12 @@ def run_impl(cfg, hist):
     for fi, fr in enumerate(hist):
         insts = [make_inst(d) for d in fr]
         t.rec.clear()
-        rec = {"n_tracks_before": len(t.candidate.current_tracks), "stale": stale_tracks(t, cfg)}
+        rec = {"n_tracks_before": len(t.candidate.current_tracks), "stale": stale_tracks(t, cfg), "insts": insts}
         with warnings.catch_warnings():
             warnings.simplefilter("ignore")
             try:
                 res = t.track(insts, fi)
                 rec["out"] = res
-                rec["insts"] = insts
             except Exception as e:
                 rec["raises"] = type(e).__name__
                 rec["msg"] = str(e)[:120]
@@ -194,6 +194,10 @@ def cframe(fr, rec, threshold) -> str:
 def case_term(cfg, hist, recs, fixes) -> str:
     frames = [cframe(fr, rec, cfg["threshold"]) for fr, rec in zip(hist, recs)]
     return f"(CaseRun {cconfig(cfg, fixes)} [" + ";\n ".join(frames) + "])"
+
+
+def frames_term(cfg, hist, recs) -> str:
+    return "[" + ";\n ".join(cframe(fr, rec, cfg["threshold"]) for fr, rec in zip(hist, recs)) + "]"
 
 
 # ---------------------------------------------------------------------------
@@ -375,4 +379,31 @@ def hist_from_json(j):
     cfg["threshold"] = Fraction(cfg["threshold"])
     hist = [[{**d, "x": Fraction(d["x"]), "y": Fraction(d["y"]), "score": Fraction(d["score"])} for d in fr]
             for fr in j["hist"]]
+    cfg.setdefault("red_max", False)
     return cfg, hist
+
+
+def recompute_scores(cfg, recs, k, cands):
+    """The score matrix of call k recomputed from the candidates the MODEL's queues hold (uids per
+    track), with the repo's own feature / scoring / reduction functions.  Returns a nested list."""
+    im = impl()
+    np = im["np"]
+    T = im["Tracker"]
+    t = T.from_config(features=cfg["features"], scoring_method=cfg["scoring"])
+    feat = t._feature_methods[cfg["features"]]
+    score = t._scoring_functions[cfg["scoring"]]
+    red = t._scoring_reduction_methods["max" if cfg["red_max"] else "mean"]
+    by_uid = {}
+    for r in recs[:k]:
+        for i in r["insts"]:
+            by_uid[i.uid] = i
+    out = []
+    with warnings.catch_warnings():
+        warnings.simplefilter("ignore")
+        for i in recs[k]["insts"]:
+            row = []
+            for cl in cands:
+                vals = [score(feat(i), feat(by_uid[u])) for u in cl]
+                row.append(float(red(vals)) if vals else float("nan"))
+            out.append(row)
+    return out
